@@ -180,6 +180,9 @@ class Skip(Exception):
 
 
 def der(t, v, mm):
+    if t.get('own_tag'):                      # a named type defined with a tag of its own (harness/ctxfam.py)
+        inner = {x: y for x, y in t.items() if x != 'own_tag'}
+        return apply_tag(der(inner, v, mm), t['own_tag'], inner, mm)
     k = t['k']
     if k == 'bool':
         return tlv(b'\x01', b'\xff' if v else b'\x00')
@@ -484,3 +487,200 @@ def run_c16(sink, rng, n, impl, codecs, Gen, Opts, module_text):
                         sink.violation('%s: a strict prefix of a valid encoding of an explicitly tagged type %s' % (codec, 'decodes to a value' if d[0] == 'ok' else 'raises %s' % d[1]),
                                        {'codec': codec, 'module': text, 'value': repr(v), 'encoded': data.hex(), 'prefix_length': k, 'result': repr(d[1:])[:300]})
                         break
+
+
+# ---------------------------------------------------------------------------------------------------------------------
+# C04 for explicitly tagged types: a SHAPE tree of the DER encoding (which nodes are strings, which are SETs) drives an
+# independent re-serialiser into the other forms X.690 allows and the certification of every variant by the independent reader.
+#   ('P', ident, content)            primitive, not a string
+#   ('S', ident, 'o' | 'b', content) OCTET / character string ('o') or BIT STRING ('b'); ident in primitive form
+#   ('C', ident, [children], is_set) constructed
+
+def shape(t, v, mm):
+    if t.get('own_tag'):
+        inner = {x: y for x, y in t.items() if x != 'own_tag'}
+        return shape_tag(shape(inner, v, mm), t['own_tag'], inner, mm)
+    k = t['k']
+    if k in ('bool', 'int', 'null', 'enum'):
+        e = der(t, v, mm)                    # one identifier octet; the length octets are re-derived by the re-serialisers
+        _, _, _, rest = split_ident(e)
+        n_len = 1 if rest[0] < 0x80 else 1 + (rest[0] & 0x7f)
+        return ('P', e[:len(e) - len(rest)], rest[n_len:])
+    if k == 'octs':
+        return ('S', b'\x04', 'o', bytes(v))
+    if k == 'str':
+        return ('S', bytes([STR_TAG[t['kind']]]), 'o', v.encode('utf-8'))
+    if k == 'bits':
+        return ('S', b'\x03', 'b', _bits_content(v))
+    if k == 'seqof':
+        return ('C', b'\x30', [shape(t['elem'], e_, mm) for e_ in v], False)
+    if k == 'setof':
+        kids = [shape(t['elem'], e_, mm) for e_ in v]
+        kids.sort(key=shape_der)
+        return ('C', b'\x31', kids, False)        # SET OF: the order of the encoder output is kept (any order is the same multiset)
+    if k in ('seq', 'set'):
+        parts = []
+        for m in t['root'] + (t['ext'] or []):
+            if m['name'] not in v:
+                if not m['opt'] and m['default'] is None:
+                    raise Skip('mandatory component absent')
+                continue
+            if m['default'] is not None and py_equal(m['t'], m['default'], v[m['name']]):
+                continue
+            parts.append(shape_tag(shape(m['t'], v[m['name']], mm), m.get('tag'), m['t'], mm))
+        return ('C', b'\x31' if k == 'set' else b'\x30', parts, k == 'set')
+    if k == 'choice':
+        for n, at in t['root'] + (t['ext'] or []):
+            if n == v[0]:
+                return shape_tag(shape(at, v[1], mm), at.get('alt_tag'), at, mm)
+        raise Skip('unknown alternative')
+    raise Skip(k)
+
+
+def _bits_content(v):
+    data, n = bytes(v[0]), v[1]
+    nb = (n + 7) // 8
+    data = bytearray(data[:nb])
+    unused = (8 - n % 8) % 8
+    if unused and data:
+        data[-1] &= (0xff << unused) & 0xff
+    return bytes([unused]) + bytes(data)
+
+
+def shape_tag(sh, tag, t, module_mode):
+    if not tag:
+        return sh
+    cls, num, mode = tag
+    mode = mode or module_mode
+    if t['k'] == 'choice':
+        mode = 'EXPLICIT'
+    if mode == 'EXPLICIT':
+        return ('C', ident(cls, num, True), [sh], False)
+    if sh[0] == 'C':
+        return ('C', ident(cls, num, True), sh[2], sh[3])
+    return (sh[0], ident(cls, num, False)) + tuple(sh[2:])
+
+
+def _set_key(e):
+    order = {0x00: 0, 0x40: 1, 0x80: 2, 0xc0: 3}
+    c, n, _, _ = split_ident(e)
+    return (order[c], n)
+
+
+def shape_der(sh):
+    if sh[0] == 'P':
+        return tlv(sh[1], sh[2])
+    if sh[0] == 'S':
+        return tlv(sh[1], sh[3])
+    kids = [shape_der(c) for c in sh[2]]
+    if sh[3]:
+        kids.sort(key=_set_key)
+    return tlv(sh[1], b''.join(kids))
+
+
+def shape_variant(sh, rng, f):
+    from . import tlv as T
+    if sh[0] == 'P':
+        return T.frame(sh[1], sh[2], False, rng, f)
+    if sh[0] == 'S':
+        return T.string_variant(sh[2], sh[1], sh[3], rng, f)
+    kids = [shape_variant(c, rng, f) for c in sh[2]]
+    if sh[3] and rng.random() < f.perm:
+        rng.shuffle(kids)
+    return T.frame(sh[1], b''.join(kids), True, rng, f)
+
+
+def shape_canon(node, sh):
+    """DER re-serialisation of a parsed BER variant, guided by the shape (raises ValueError when the variant is not a valid form)"""
+    from . import tlv as T
+    if sh[0] == 'P':
+        if node.children is not None or node.tag != sh[1]:
+            raise ValueError('primitive expected')
+        return tlv(node.tag, node.content)
+    if sh[0] == 'S':
+        if T.with_constructed(node.tag, False) != sh[1]:
+            raise ValueError('string identifier')
+        return tlv(sh[1], T._flatten_string(node, sh[2] == 'b'))
+    if node.children is None or node.tag != sh[1] or len(node.children) != len(sh[2]):
+        raise ValueError('constructed expected')
+    kids = list(node.children)
+    if sh[3]:
+        def first(s):
+            return T.with_constructed(s[1], False)
+        want = {first(c): c for c in sh[2]}
+        pairs = [(ch, want[T.with_constructed(ch.tag, False)]) for ch in kids]
+        parts = [shape_canon(ch, c) for ch, c in pairs]
+        parts.sort(key=_set_key)
+    else:
+        parts = [shape_canon(ch, c) for ch, c in zip(kids, sh[2])]
+    return tlv(sh[1], b''.join(parts))
+
+
+def variants_check(sink, impl, spec, name, t, v, mm, text, rng, per_kind=2, encoded=None):
+    """every kind of re-serialisation of the encoder output of (t, v), certified, must decode to v"""
+    from . import tlv as T
+    try:
+        sh = shape(t, v, mm)
+    except Skip:
+        return
+    want = shape_der(sh)
+    if encoded is not None and encoded != want:
+        sink.count('tagged.c04.encoder-output-is-not-the-der-form')  # BER keeps the SET / SET OF order of the value; the variants below are forms of the DER encoding of the same value
+    seen = {want}
+    kinds = dict(T.KINDS)
+    kinds.update(T.SET_KINDS)
+    for kind, forms in kinds.items():
+        for _ in range(per_kind):
+            alt = shape_variant(sh, rng, forms)
+            if alt in seen:
+                continue
+            seen.add(alt)
+            sink.case((text, name, alt.hex()))
+            try:
+                n2, e2 = T.parse_any(alt)
+                ok = e2 == len(alt) and shape_canon(n2, sh) == want
+            except Exception:
+                ok = False
+            if not ok:
+                sink.count('tagged.c04.variant-not-certified.' + kind)
+                continue
+            d = impl.decode(spec, name, alt)
+            sink.count('tagged.c04.%s.%s' % (kind, 'accepted' if d[0] == 'ok' else d[1].split(':')[0]))
+            if d[0] == 'ok' and py_equal(t, d[1], v):
+                continue
+            if d[0] != 'ok' and d[1] == 'Timeout':
+                continue
+            sink.violation('ber: a valid re-serialisation (%s) of an encoder output of an explicitly tagged type is not decoded to the value that was encoded' % kind,
+                           {'module': text, 'type': name, 'value': repr(v), 'variant': alt.hex(), 'kind': kind, 'impl': repr(d)[:400], 'encoder_output': want.hex()})
+
+
+def run_c04(sink, rng, n, impl, Gen, Opts, module_text):
+    opts = Opts(max_depth=3, allow_exotic=0.0, big_lengths=0.0, many_additions=0.05,
+                kinds=['bool', 'null', 'int', 'enum', 'octs', 'octs', 'bits', 'str', 'str', 'seq', 'seq', 'set', 'seqof', 'setof', 'choice'])
+    done = tries = 0
+    while done < n and tries < 20 * n:
+        tries += 1
+        g = Gen(rng, opts)
+        t = g.type()
+        if t['k'] not in ('seq', 'set', 'choice', 'seqof', 'setof'):
+            continue
+        decorate(rng, t)
+        mode = rng.choice(['', 'EXPLICIT TAGS', 'IMPLICIT TAGS', 'IMPLICIT TAGS'])
+        mm = 'IMPLICIT' if mode.startswith('IMPLICIT') else 'EXPLICIT'
+        text = module_text([('A', t)], tags=mode)
+        st, spec = impl.compile_text(text, 'ber')
+        if st != 'ok':
+            sink.count('tagged.c04.compile.' + st)
+            continue
+        done += 1
+        for _ in range(3):
+            v = g.value(t)
+            if value_tags(t, v, 'ber'):
+                continue
+            r = impl.encode(spec, 'A', v)
+            if r[0] != 'ok':
+                continue
+            own = impl.decode(spec, 'A', r[1])
+            if own[0] != 'ok' or not py_equal(t, own[1], v):
+                continue            # C01's business
+            variants_check(sink, impl, spec, 'A', t, v, mm, text, rng, encoded=r[1])
